@@ -51,8 +51,13 @@ def run(ctx):
     if not exe:
         return
     runner = SimRunner(ctx, exe)
-    nscen = ctx.n(250, 2000)
-    nsched = ctx.n(60, 500)
+    if getattr(ctx, "replay_path", None):
+        # the Python-level `messages` check needs the generating template; a replay re-evaluates the
+        # simulator-level oracles (hang, panic, Err, refcounts, quiescence)
+        simlib.replay(ctx, runner, lambda obj, s: [k for k, _ in judge(dict(name="replay"), s)])
+        return
+    nscen = ctx.n(200, 2000)
+    nsched = ctx.n(50, 500)
     scenarios = []
     while len(scenarios) < nscen:
         t = simlib.MESSAGE_SCENARIOS[len(scenarios) % len(simlib.MESSAGE_SCENARIOS)]
